@@ -159,6 +159,10 @@ def get_bytes_from_code(code):
         code_bytes = bytes(code)
 
     byte_array = bytearray(0x8000-0x4300)
+    if len(code_bytes) > len(byte_array):
+        raise InvalidP8PNGError(
+            'Code does not fit in the cartridge: {} bytes, limit {}'.format(
+                len(code_bytes), len(byte_array)))
     byte_array[:len(code_bytes)] = code_bytes
 
     return byte_array
